@@ -57,10 +57,11 @@ PROPS = {
                 outside=["hex strings, Display/FromStr and the serde round trips (JSON / postcard, is_human_readable branches): they run through the hex / serde / serde_json / postcard crates, whose generic Serializer machinery is not modelled", "sizes above the stated bounds"]),
     "C19": dict(claim="The Rust plumbing around the secp256k1 / ed25519 primitives, with the primitives as uninterpreted functions: sign::contract::sign then recover returns the signer's key and verify accepts, for every contract with <=2 predicates (one node, one edge, symbolic fields) and every salt, also when the verifier is given the predicates in the other order, because both sides hash the same content address (ascending predicate addresses, salt); recover / verify / RecoverSecp256k1 return an error (never panic) for every 64-byte signature and every recovery-id byte incl. ids >3; the VM op feeds the library exactly the popped 4+8+1 words in order and pushes encode::public_key's 5-word layout; encode::signature/public_key have the documented word layout. Each run also executes a native differential (real keys, real library) of contract sign/recover/verify and of the three VM crypto ops against the sign/hash crates.",
                 outside=["axiom A1: recover(m, sign(m, sk)) = pubkey(sk) and serialize_compact/from_compact are inverse (libsecp256k1 contract)", "axiom A2: RecoveryId is valid iff 0..=3", "ECDSA / SHA-256 internals and therefore 'after any change to the predicates or salt the recovered key differs' (collision / forgery resistance of the primitives); the harness only shows the changed content reaches the hash input", "contracts with >2 predicates (the sort itself is decided for <=3 addresses by h_hash::addrs_canonical)"]),
+    "C02": dict(claim="Schedule independence at task granularity, with the schedule as a solver-chosen variable: in the three rayon sections (nodes of one graph level in check_predicate_inner, solutions of a set in check_set_predicates, Compute children in compute::compute) the per-item tasks are executed one after another in EVERY order (all permutations for <=3 tasks) and the section's result is assembled by index as rayon's indexed collect / partition does; on every explored order the C01 / C10 oracles must hold, i.e. Ok/Err, failing indices, gas, data outputs, caches and the joined memory equal the sequential reference. Bounds as in the underlying harnesses (graphs <=3 nodes / <=2 edges, <=3 solutions, breadth <=2). Counterexamples are replayed natively 10+2 times on pools of 2..16 threads (a schedule cannot be forced natively; not reproducing = inconclusive).",
+                outside=["interleavings INSIDE a task (two tasks overlapping in time): tasks share no mutable state except Arc reference counts and the OnceLock in LazyCache, whose single initialisation is std's contract; Rust's Send/Sync rules exclude data races", "rayon's contracts: indexed collect / partition / zip / enumerate preserve index order, join waits for all tasks (trusted, not modelled)", "thread-pool sizes and work stealing themselves; more than 3 tasks per section only in identity / reverse / one rotation", "C03-level inputs beyond the C01 / C10 harness bounds"]),
 }
 
 NOT_APPLICABLE = {
-    "C02": "thread-schedule independence of the rayon sections: Kani has no concurrency model and ICEs on rayon-reaching code; encoding rayon's work-stealing scheduler for the solver is out of reach; the 'equals the sequential evaluation' half is decided under C01 (DESIGN.md section 5)",
 }
 
 
@@ -109,7 +110,7 @@ def assumptions_for(pid):
     sp = PROPS[pid]
     out = ["rustc nightly's MIR / stable-MIR / expanded printers are faithful to the compiled program",
            "mirsym's models of std/core/alloc (Vec, slices, iterators, Option/Result, maps and sets as association lists, checked arithmetic, allocation limits); every reported counterexample is first reproduced natively",
-           "z3 answers (10 s per query; unknown = inconclusive path)",
+           "z3 answers (20 s per query in the quick tier, 90 s in the thorough tier; unknown = inconclusive path)",
            "uninterpreted: SHA-256, the state behind StateRead, the per-node program runner (where the harness says so)"]
     if pid in K_SEL: out.append("Kani 0.68 / CBMC 6.11: MIR->GOTO translation, unwinding assertions on, sequential shim for rayon")
     out += ["outside the claim: " + x for x in sp.get("outside", [])]
